@@ -91,6 +91,8 @@ func bodyVia(a *aspec.ASpec, b aspec.Body) string {
 	return "component"
 }
 
+var rawMedia = []string{"application/octet-stream", "application/problem+json", "text/plain", "application/json; charset=utf-8", "application/merge-patch+json"}
+
 func randSchemaBody(rng *rand.Rand) aspec.Body {
 	str := aspec.Schema{K: "string"}
 	switch rng.Intn(8) {
@@ -111,7 +113,7 @@ func randSchemaBody(rng *rand.Rand) aspec.Body {
 		return aspec.Body{K: "json", Schema: &o}
 	}
 	// raw bodies: the documented media type is what goes on the wire, whatever it looks like
-	return aspec.Body{K: "raw", Media: []string{"application/octet-stream", "application/problem+json", "text/plain", "application/json; charset=utf-8", "application/vnd.api+json"}[rng.Intn(5)]}
+	return aspec.Body{K: "raw", Media: rawMedia[rng.Intn(len(rawMedia))]}
 }
 
 func randHeaders(rng *rand.Rand) []aspec.Header {
@@ -178,13 +180,21 @@ func randWireOp(a *aspec.ASpec, k int, rng *rand.Rand) wireOp {
 		params = append(params, aspec.Param{In: "header", Name: n, Req: req, Schema: scalarSchema(typ, rng)})
 		ds = append(ds, decl{In: "header", Name: n, Type: typ, Req: req})
 	}
-	method := []string{"GET", "POST", "PUT", "DELETE", "PATCH"}[rng.Intn(5)]
+	// methods and the ways of declaring a request body are stratified over the operation index, so that every
+	// 24 consecutive operations hold each of them (a seeded sample alone can leave one out)
+	rng.Intn(5)
+	method := []string{"GET", "POST", "PUT", "DELETE", "PATCH"}[k%5]
 	op := simpleOp(method, t)
 	op.Params = params
 	if method != "GET" && method != "DELETE" {
 		op.Body = randSchemaBody(rng)
-		if rng.Intn(4) == 0 {
-			op.Body = aspec.Body{K: "ref", To: []string{"PooledBody", "PooledInline", "PooledMulti"}[rng.Intn(3)]}
+		rng.Intn(4)
+		if k%5 == 2 && (k/5)%2 == 0 {
+			// every tenth operation takes a raw body, cycling through the media types (among them JSON-looking ones)
+			op.Body = aspec.Body{K: "raw", Media: rawMedia[(k/10)%len(rawMedia)]}
+		}
+		if k%4 == 1 {
+			op.Body = aspec.Body{K: "ref", To: []string{"PooledBody", "PooledMulti", "PooledInline"}[(k/4)%3]}
 		}
 		if op.Body.K == "ref" {
 			// a reference to components.requestBodies
@@ -586,7 +596,7 @@ func checkWire(c *core.Check, which string) {
 				for k, vs := range hdr {
 					if http.CanonicalHeaderKey(k) == n {
 						for _, x := range vs.([]any) {
-							vals = append(vals, "s:"+x.(string))
+							vals = append(vals, denotations(x.(string)))
 						}
 					}
 				}
@@ -642,12 +652,14 @@ func checkWire(c *core.Check, which string) {
 	c.Add("programs", int64(len(sc.Pkgs)))
 	c.Add("distinct_nontrivial", int64(jr.Nontriv))
 	mine, other := 0, 0
+	byEvent := map[string]int{}
 	atOf := map[string][]string{"c09": {"Wire", "Parse"}, "c10": {"Return", "ServerPanic"}, "c02": {"ServerDone", "Respond"}}
 	for _, rj := range jr.Rejects {
 		var why struct {
 			At string `json:"at"`
 		}
 		json.Unmarshal([]byte(rj.Why), &why)
+		byEvent[why.At+"/"+rj.KF]++
 		isMine := false
 		for _, a := range atOf[which] {
 			if a == why.At {
@@ -667,6 +679,7 @@ func checkWire(c *core.Check, which string) {
 			fmt.Sprintf("client/server (%s): operation %s %s: %s", which, m.w.op.Method, aspec.TemplateString(m.w.tmpl), trunc(strings.Join(info[rj.Case], " | "), 900)))
 	}
 	c.Cov["rejected_for_other_wire_properties"] = other
+	c.Cov["rejected_events_by_kind_and_finding"] = byEvent
 	c.Cov["exhaustive"] = false
 	c.Cov["rule"] = "seeded operations (0-2 typed path parameters, 0-3 query parameters incl. arrays, 0-2 header parameters, JSON / raw / no body, 1-4 responses from {200,201,404,default} inline / component / alias with typed required and optional headers and JSON / raw / no body) are pre-flighted and packed with the client on under rotating base-path forms; each operation is called through the generated Client with seeded boundary values (domain of §11), the injected HTTPClient records the wire request and serves it through API.ServeHTTP, the handler parses and answers with a seeded value of a seeded documented response type; undocumented statuses are injected; TLC (Trace_Wire) judges wire validity and parsed = sent (C09), the write as documented (C02), returned = produced and the default/error rule (C10); non-trivial = every completed call"
 	c.Cov["bounds"] = map[string]any{"operations": nOps, "values_per_operation": nSeeds, "injected_statuses": []int{200, 201, 202, 302, 404, 418, 500}}
@@ -768,4 +781,26 @@ func wireEvent(e map[string]any, w wireOp, base []string) map[string]any {
 		body = core.ParseJ(bs)
 	}
 	return map[string]any{"ev": "Wire", "method": e["method"], "kind": kind, "segs": segs, "sup": sup, "undeclared": undeclared, "body": body, "hasBody": len(bs) > 0}
+}
+
+// denotations: what a header value on the wire denotes in each lexical space (strconv / time as the trusted
+// definition, the same leaf encoding as driver.Project); "" where the text is outside the space.
+func denotations(x string) map[string]any {
+	d := map[string]any{"s": "s:" + x, "i": "", "f": "", "g": "", "b": "", "t": ""}
+	if n, err := strconv.ParseInt(x, 10, 64); err == nil {
+		d["i"] = "i:" + strconv.FormatInt(n, 10)
+	}
+	if f, err := strconv.ParseFloat(x, 64); err == nil {
+		d["f"] = "f:" + strconv.FormatFloat(f, 'g', -1, 64)
+	}
+	if f, err := strconv.ParseFloat(x, 32); err == nil {
+		d["g"] = "g:" + strconv.FormatFloat(f, 'g', -1, 32)
+	}
+	if x == "true" || x == "false" {
+		d["b"] = "b:" + x
+	}
+	if tm, err := time.Parse(time.RFC3339Nano, x); err == nil {
+		d["t"] = fmt.Sprintf("t:%d.%09d", tm.Unix(), tm.Nanosecond())
+	}
+	return d
 }
